@@ -476,15 +476,9 @@ func ApplyConnectCAOperationFromRequest(state *state.Store, req *structs.CAReque
 
 		return true
 	case structs.CAOpSetRootsAndConfig:
-		act, err := state.CARootSetCAS(index, req.Index, req.Roots)
-		if err != nil {
-			return err
-		}
-		if !act {
-			return act
-		}
-
-		act, err = state.CACheckAndSetConfig(index, req.Config.ModifyIndex, req.Config)
+		// Both check-and-set operations happen in one transaction so that a
+		// stale config index cannot leave the new roots behind.
+		act, err := state.CARootsAndConfigSetCAS(index, req.Index, req.Roots, req.Config)
 		if err != nil {
 			return err
 		}
